@@ -21,6 +21,9 @@ type Linter struct {
 	lexers     map[string]*lexer.Lexer
 	ignore     *ignore
 	conf       *config.LinterConfig
+
+	// modules whose include statements are being resolved right now (cycle detection)
+	includeChain []string
 }
 
 func New(c *config.LinterConfig, opts ...optionFunc) *Linter {
@@ -460,6 +463,23 @@ func (l *Linter) resolveFileInclusion(
 		l.Error(e.Match(INCLUDE_STATEMENT_MODULE_LOAD_FAILED))
 		return statements
 	}
+
+	// A module that includes itself, directly or through other modules, would be resolved forever
+	for _, name := range l.includeChain {
+		if name == module.Name {
+			e := &LintError{
+				Severity: ERROR,
+				Token:    include.GetMeta().Token,
+				Message: fmt.Sprintf(
+					"Circular include: %s -> %s", strings.Join(l.includeChain, " -> "), module.Name,
+				),
+			}
+			l.Error(e.Match(INCLUDE_STATEMENT_MODULE_LOAD_FAILED))
+			return statements
+		}
+	}
+	l.includeChain = append(l.includeChain, module.Name)
+	defer func() { l.includeChain = l.includeChain[:len(l.includeChain)-1] }()
 
 	if isRoot {
 		statements = l.loadVCL(module.Name, module.Data)
